@@ -1,5 +1,5 @@
 """C04, Squeeth part — a rejected vault operation leaves wallet, vaults, pool positions and the action log intact
-(demeter/squeeth/market.py: open_deposit_mint, deposit, deposit/withdraw_uni_position, burn_and_withdraw, liquidate, update)."""
+(demeter/squeeth/market.py: open_deposit_mint, deposit, deposit/withdraw_uni_position, burn_and_withdraw, liquidate, update, buy_squeeth, sell_squeeth)."""
 from __future__ import annotations
 
 from decimal import Decimal as D
@@ -13,7 +13,8 @@ LEAN_MODULES = ["Proofs.C04.Squeeth"]
 DRIVERS = ["driver_squeeth"]
 RULE = ("rejection-directed: for every vault operation × every cause the model knows (unsafe vault, dust vault, unknown vault, vault already has "
         "an LP, LP already lent / unknown / empty, wrong LP, insufficient WETH / oSQTH, token missing from the wallet, safe vault, closed pool, "
-        "dust vault left) a state in which exactly that precondition fails is built from random prefixes of accepted operations and from the "
+        "dust vault left; buy_squeeth / sell_squeeth: more than the wallet holds by far / by 1e-6 / by one wei, negative, no amount, token missing from the wallet, "
+        "zero row price under an ETH amount, closed pool — in the oSQTH form, the ETH form and both) a state in which exactly that precondition fails is built from random prefixes of accepted operations and from the "
         "exact boundary stream; plus every amount slot of open_deposit_mint(_by_collat_rate) / deposit / burn_and_withdraw fed with NaN, sNaN, +-Infinity, 1E+-400, -0 "
         "and float nan/inf (a raising call must leave the state intact, no number of the state may become non-finite); "
         "bucket = (operation, model rejection cause, argument class, path kind)")
@@ -99,6 +100,17 @@ def rejection_directed(ctx, runner):
     cands.append(({"k": "withdrawUni", "vk": max(vaults + [0]) + 2, "pos": [180, 240]}, "aim:unknown-vault"))
     cands.append(({"k": "depositUni", "vk": max(vaults + [0]) + 2, "pos": rng.choice(free) if free else [180, 240]}, "aim:unknown-vault"))
     cands.append(({"k": "update"}, "aim:update"))
+    # the long side: every way buy_squeeth / sell_squeeth can be refused, in both parameter forms
+    bal_o = D(dict((n, b) for n, b in st["wallet"]).get("OSQTH", 0))
+    row_o = world.cur()[2]
+    for k in ("buy", "sell"):
+        for cls in ("over", "dust-over", "negative"):
+            for form in ("osqth", "eth", "both"):
+                op, argc = G.gen_trade(rng, world, k, cls, form)
+                cands.append((op, "aim:" + argc))
+        cands.append(({"k": k, "osqth": None, "eth": None, "call": rng.choice(["kw", "pos", "kw-given"])}, "aim:no-amount"))
+    cands.append(({"k": "sell", "osqth": bal_o + D("0.000000000000000001"), "eth": None, "call": "pos"}, "aim:one-wei-more"))
+    cands.append(({"k": "sell", "osqth": None, "eth": (bal_o + 1) * row_o, "call": "kw"}, "aim:eth-form-more-than-held"))
     spec, envs = st, world.env
     for op, argc in cands:
         w = L.World(spec, envs)
@@ -139,6 +151,31 @@ def boundary(ctx, runner):
         ("withdraw-lp-to-dust", {"wallet": [["WETH", D(5)], ["OSQTH", D(1)]], "vaults": [[1, v("0.3", 1, [21000, 25020])]], "maxId": 1, "positions": [[[21000, 25020], pos]]}, E(), {"k": "withdrawUni", "vk": 1, "pos": [21000, 25020]}),
         ("mint-on-existing-unsafe", {"wallet": [["WETH", D(5)], ["OSQTH", D(1)]], "vaults": [[1, v(3, 10)]], "maxId": 1, "positions": []}, E(), {"k": "openMint", "deposit": D(1), "mint": D(40), "vk": 1, "pos": None}),
         ("empty-lp", {"wallet": [["WETH", D(5)], ["OSQTH", D(1)]], "vaults": [[1, v(3, 10)]], "maxId": 1, "positions": [[[21000, 25020], dict(pos, liquidity=0, transferred=False, p0=D(1))]]}, E(), {"k": "depositUni", "vk": 1, "pos": [21000, 25020]}),
+    ]
+    W2 = [["WETH", D(100)], ["OSQTH", D(5)]]
+    one_vault = {"wallet": W2, "vaults": [[1, v(3, 10)]], "maxId": 1, "positions": []}
+    T = lambda k, osqth=None, eth=None, call="kw": {"k": k, "osqth": None if osqth is None else D(osqth), "eth": None if eth is None else D(eth), "call": call}  # noqa: E731
+    cases += [
+        # 997 oSQTH at 0.1 with 0.3 % fee cost exactly the 100 WETH held: accepted (not a rejection, counted); one more is refused
+        ("buy-exactly-affordable", one_vault, E(), T("buy", "997")),
+        ("buy-one-more", one_vault, E(), T("buy", "998")),
+        ("buy-eth-form-one-more", one_vault, E(), T("buy", None, "99.8")),
+        ("buy-negative", one_vault, E(), T("buy", "-1", None, "pos")),
+        ("buy-negative-eth", one_vault, E(), T("buy", None, "-1")),
+        ("buy-none", one_vault, E(), T("buy")),
+        ("buy-none-positional", one_vault, E(), T("buy", None, None, "pos")),
+        ("sell-more-than-held", one_vault, E(), T("sell", "5.0001")),
+        ("sell-eth-form-more-than-held", one_vault, E(), T("sell", None, "0.50001")),
+        ("sell-negative", one_vault, E(), T("sell", "-0.5")),
+        ("sell-none", one_vault, E(), T("sell")),
+        ("buy-closed-pool-more-than-held", one_vault, E(uni_open=False), T("buy", "5000")),
+        ("sell-closed-pool-more-than-held", one_vault, E(uni_open=False), T("sell", "50")),
+        ("buy-no-weth-in-wallet", {"wallet": [["OSQTH", D(5)]], "vaults": [], "maxId": 0, "positions": []}, E(), T("buy", "1")),
+        ("sell-no-osqth-in-wallet", {"wallet": [["WETH", D(5)]], "vaults": [], "maxId": 0, "positions": []}, E(), T("sell", "1")),
+        ("buy-eth-form-zero-row-price", one_vault, E(osqth="0", uni_price="0.1"), T("buy", None, "1")),
+        ("sell-eth-form-zero-row-price-zero-eth", one_vault, E(osqth="0", uni_price="0.1"), T("sell", None, "0")),
+        ("buy-flip-more-than-held", one_vault, E(flip=True), T("buy", "5000")),
+        ("sell-flip-more-than-held", one_vault, E(flip=True), T("sell", "50")),
     ]
     for name, spec, env, op in cases:
         w = L.World(spec, env)
